@@ -3,6 +3,11 @@
 #include "util/file.hh"
 #include "util/have.hh"
 #include "util/scoped.hh"
+#ifdef PREPROCESS_VERIF
+#include "util/verif_hooks.hh"
+#else
+#define PV_TRACE(kind, a, b)
+#endif
 
 #include <algorithm>
 #include <iostream>
@@ -117,21 +122,26 @@ template <class Compression> class ReadStream : public ReadBase {
     std::size_t Read(void *to, std::size_t amount, ReadCompressed &thunk) {
       if (amount == 0) return 0;
       back_.SetOutput(to, amount);
+      PV_TRACE("R.read", amount, 0);
       do {
         if (!back_.AvailInput()) ReadInput(thunk);
         // No input left in the file: unless this call produces output or ends the stream, it is truncated.
         const bool at_eof = !back_.AvailInput();
         const uint8_t *const before = back_.NextOutput();
+        PV_TRACE("R.proc", back_.AvailInput(), amount - (back_.NextOutput() - static_cast<const uint8_t*>(to)));
         if (!back_.Process()) {
           // reached end, at least for the compressed portion.
           std::size_t ret = back_.NextOutput() - static_cast<const uint8_t*>(to);
+          PV_TRACE("R.end", back_.AvailInput(), ret);
           ReplaceThis(ReadFactory(file_.release(), ReadCount(thunk), back_.NextInput(), back_.AvailInput(), true), thunk);
           if (ret) return ret;
           // We did not read anything this round, so clients might think EOF.  Transfer responsibility to the next reader.
           return Current(thunk)->Read(to, amount, thunk);
         }
+        PV_TRACE("R.ok", back_.AvailInput(), back_.NextOutput() - static_cast<const uint8_t*>(to));
         UTIL_THROW_IF(at_eof && back_.NextOutput() == before, CompressedException, "Compressed stream ended prematurely.");
       } while (back_.NextOutput() == to);
+      PV_TRACE("R.ret", back_.NextOutput() - static_cast<const uint8_t*>(to), 0);
       return back_.NextOutput() - static_cast<const uint8_t*>(to);
     }
 
@@ -139,6 +149,7 @@ template <class Compression> class ReadStream : public ReadBase {
     void ReadInput(ReadCompressed &thunk) {
       assert(!back_.AvailInput());
       std::size_t got = ReadOrEOF(file_.get(), in_buffer_.get(), kInputBuffer);
+      PV_TRACE("R.input", got, 0);
       back_.SetInput(in_buffer_.get(), got);
       ReadCount(thunk) += got;
     }
@@ -621,25 +632,34 @@ template <class Compressor> class WriteStream : public WriteBase {
       }
 
       compressor_.SetInput(data, amount);
+      PV_TRACE("W.write", amount, 0);
       while (compressor_.AvailInput()) {
         if (!compressor_.EnoughOutput()) {
+          PV_TRACE("W.drain", compressor_.NextOutput() - reinterpret_cast<const uint8_t*>(buf_.get()), 0);
           writer_.write(buf_.get(), compressor_.NextOutput() - reinterpret_cast<const uint8_t*>(buf_.get()));
           compressor_.SetOutput(buf_.get(), buf_size_);
         }
+        PV_TRACE("W.proc", compressor_.AvailInput(), compressor_.AvailOutput());
         compressor_.Process();
+        PV_TRACE("W.did", compressor_.AvailInput(), compressor_.AvailOutput());
       }
       dirty_ = true;
     }  
 
     void flush() {
+      PV_TRACE("W.flush", dirty_ ? 1 : 0, 0);
       if (!dirty_) return;
       do {
         if (!compressor_.EnoughOutput()) {
+          PV_TRACE("W.drain", compressor_.NextOutput() - reinterpret_cast<const uint8_t*>(buf_.get()), 0);
           writer_.write(buf_.get(), compressor_.NextOutput() - reinterpret_cast<const uint8_t*>(buf_.get()));
           compressor_.SetOutput(buf_.get(), buf_size_);
         }
+        PV_TRACE("W.fin", compressor_.AvailOutput(), 0);
       } while (!compressor_.Finish());
+      PV_TRACE("W.findone", compressor_.AvailOutput(), 0);
       if (compressor_.NextOutput() != buf_.get()) {
+        PV_TRACE("W.drain", compressor_.NextOutput() - reinterpret_cast<const uint8_t*>(buf_.get()), 0);
         writer_.write(buf_.get(), compressor_.NextOutput() - reinterpret_cast<const uint8_t*>(buf_.get()));
       }
       writer_.flush();
